@@ -10,6 +10,12 @@ import buildlib
 
 def main():
     t0 = time.time()
+    import translate_tables
+    for fn in (translate_tables.keywords, translate_tables.binding_table):
+        try:
+            print(fn())
+        except translate_tables.TableError as e:
+            print("table extraction failed:", e)
     ok, log, dt = buildlib.lake_build(["BlochVerif", "driver"])
     print("lake build: %s (%.0fs)" % ("ok" if ok else "FAILED", dt))
     if not ok:
